@@ -192,6 +192,7 @@ type Peer struct {
 	direct  *simDirect
 	Offline bool // Dag().Get never waits for remote blocks
 	gate    bool
+	gateFor func(cid.Cid) bool
 	parked  []*ParkedFetch
 	GetLog  []cid.Cid
 	Journal *Journal
@@ -567,10 +568,19 @@ func (f *ParkedFetch) Fail(err error) {
 	})
 }
 
+// SetGateFor is SetGate(true) for the blocks sel selects only: the others are fetched as usual.
+func (p *Peer) SetGateFor(sel func(cid.Cid) bool) {
+	p.mu.Lock()
+	p.gate = true
+	p.gateFor = sel
+	p.mu.Unlock()
+}
+
 // SetGate makes every later Dag().Get of this peer park until released.
 func (p *Peer) SetGate(on bool) {
 	p.mu.Lock()
 	p.gate = on
+	p.gateFor = nil
 	var rel []*ParkedFetch
 	if !on {
 		rel = p.parked
@@ -664,7 +674,7 @@ func (d *netDAG) Get(ctx context.Context, c cid.Cid) (ipld.Node, error) {
 	p.mu.Lock()
 	p.GetLog = append(p.GetLog, c)
 	var pf *ParkedFetch
-	if p.gate {
+	if p.gate && (p.gateFor == nil || p.gateFor(c)) {
 		pf = &ParkedFetch{Cid: c, release: make(chan struct{})}
 		p.parked = append(p.parked, pf)
 	}
